@@ -74,6 +74,12 @@ def _run_one(config: RunConfig) -> ParallelResult:
     """Worker function executed in a subprocess."""
     if config.seed is not None:
         random.seed(config.seed)
+        # Library sources draw from numpy's global generator too (PoissonArrivalTimeProvider);
+        # seed it as well, otherwise a replica's arrivals depend on the state the worker
+        # process happened to inherit instead of on its seed.
+        import numpy as np
+
+        np.random.seed(config.seed % (2**32))
     sim = config.build_fn()
     summary = sim.run()
     return ParallelResult(name=config.name, summary=summary)
